@@ -34,11 +34,21 @@ THEOREMS = [P + n for n in [
     "simplify_conditionals_if_sound", "simplify_conditionals_sound", "simplify_conditionals_needs_first_branch",
     "simplify_coalesce_head_sound", "simplify_coalesce_cmp_sound", "simplify_coalesce_needs_nonnull_constant",
     "simplify_comparison_bounds_sound", "simplify_comparison_tie_needed",
+    "simplify_comparison_nonnull_sound", "simplify_comparison_where_sound", "simplify_comparison_false_nonnull",
+    "simplify_comparison_not_where_counterexample", "simplify_comparison_nonfalse_sound", "exact_pair_sound",
+    "flat_simplify_sound", "simplify_connectors_exact_sound", "simplify_literals_add_sound", "simplify_literals_mul_sound",
+    "distributive_law_sound", "distribute_exact", "uniq_sort_sound", "remove_complements_sound",
+    "propagate_constants_where_sound", "propagate_constants_nonnull_sound", "propagate_constants_null_counterexample",
     "checkStep_sound", "checkStep_exact", "nonnull_needed", "nonnull_needed_absorb",
     "simplify_comparison_and_false_counterexample", "normalize_result", "while_changing_sound",
 ]] + ["SqlglotModel.Simplify.ttCheck_sound", "SqlglotModel.Simplify.checkAll_sound",
                    "SqlglotModel.Simplify.caseLoop_sound", "SqlglotModel.Simplify.evalCoalesce_split",
-                   "SqlglotModel.Simplify.splitAtConst_ends", "SqlglotModel.Simplify.endsCoalesce_ne_null"]
+                   "SqlglotModel.Simplify.splitAtConst_ends", "SqlglotModel.Simplify.endsCoalesce_ne_null",
+                   "SqlglotModel.Simplify.flatSimplify_sound", "SqlglotModel.Simplify.flatLoop_sound", "SqlglotModel.Simplify.tryPair_sound",
+                   "SqlglotModel.Simplify.distLaw_all", "SqlglotModel.Simplify.distTop_sound", "SqlglotModel.Simplify.distribute_sound",
+                   "SqlglotModel.Simplify.uniqSortWith_sound", "SqlglotModel.Simplify.removeComplements_sound",
+                   "SqlglotModel.Simplify.foldSem_sameSet", "SqlglotModel.Simplify.substAll_all", "SqlglotModel.Simplify.substSpine_sound",
+                   "SqlglotModel.Simplify.bindings_true", "SqlglotModel.Simplify.conjBindings_subset", "SqlglotModel.Simplify.binding_false"]
 
 KNOWN_PRE = ["rewrite_between", "uniq_sort", "absorb_and_eliminate", "simplify_concat", "simplify_conditionals", "propagate_constants"]
 KNOWN_POST = ["simplify_not", "flatten", "simplify_connectors", "remove_complements", "simplify_coalesce", "simplify_literals",
@@ -699,7 +709,8 @@ class Observer:
     def _ctx(self, e, args):
         exp, _, _ = sg()
         p = e.parent
-        ctx = {"p": pk_of(p), "root": next((a for a in args if isinstance(a, bool)), True), "sdn": self.sdn, "cns": self.cns}
+        ctx = {"p": pk_of(p), "root": next((a for a in args if isinstance(a, bool)), True), "sdn": self.sdn, "cns": self.cns,
+               "sp": type(p) is type(e), "nonnull": e.meta.get("nonnull") is True}
         if isinstance(e, exp.Not) and isinstance(e.this, exp.Not):
             ctx["ib"] = bool(e.this.this.is_type(exp.DType.BOOLEAN))
         return ctx
@@ -745,6 +756,8 @@ class Observer:
             if not obs.on:
                 return orig(self_, expression, simplifier, root)
             pif = isinstance(expression.parent, exp.If)
+            whole_before = expression.copy()
+            gate = bool(root or not expression.same_parent)
 
             def cb(e, a, b):
                 a0, b0 = a.copy(), b.copy()
@@ -753,7 +766,10 @@ class Observer:
                 kind = "none" if r is None else ("same" if r is e else "res")
                 obs.log.append(("pair", {"cls": type(e).__name__, "pif": pif, "sp": sp, "kind": kind}, (a0, b0), r.copy() if kind == "res" else None))
                 return r
-            return orig(self_, expression, cb, root)
+            out = orig(self_, expression, cb, root)
+            obs.log.append(("flat", {"cls": type(expression).__name__, "pif": pif, "gate": gate, "p": None}, whole_before,
+                            out.copy() if isinstance(out, exp.Expr) else out))
+            return out
         cls._flat_simplify = w
 
     def run(self, fn, *args, **kwargs):
@@ -901,6 +917,8 @@ def step_pairs(log):
             if name == "_simplify_binary" and cls is exp.Sub and not ctx["sp"]:
                 continue
             yield name, ctx, be, after
+        elif rule == "flat":
+            continue
         elif isinstance(after, exp.Expr) and before != after:
             yield rule, ctx, before, after
 
@@ -1007,6 +1025,11 @@ def model_request(rule, ctx, before, after):
         return req, exp_ans
     if not isinstance(after, exp.Expr):
         return None
+    if rule == "flat":
+        k = {"And": "and", "Or": "or", "Add": "add", "Mul": "mul"}.get(ctx["cls"])
+        if k is None:
+            return None
+        return {"op": "flat_simplify", "k": k, "gate": ctx["gate"], "pif": ctx["pif"], "e": to_json(before)}, to_json(after)
     p = ctx["p"]
     if rule == "rewrite_between":
         return {"op": rule, "pnot": p == "not", "e": to_json(before)}, to_json(after)
@@ -1026,7 +1049,27 @@ def model_request(rule, ctx, before, after):
         return {"op": "flatten", "e": to_json(before)}, to_json(after)
     if rule == "simplify_literals" and isinstance(before, exp.Neg):
         return {"op": "neg_neg", "e": to_json(before)}, to_json(after)
-    if rule in ("uniq_sort", "absorb_and_eliminate", "remove_complements", "sort_comparison", "distributive_law"):
+    if rule == "distributive_law":
+        # mirrored with uniq_sort = identity: compared modulo order / duplicates / parentheses of connector operands
+        return {"op": "dist_law", "dnf": bool(ctx["root"]), "e": to_json(before)}, ("CANON", to_json(after))
+    gate = bool(ctx["root"] or not ctx.get("sp"))
+    if rule == "propagate_constants":
+        return {"op": rule, "gate": gate, "e": to_json(before)}, ("PC", to_json(after))
+    if rule == "remove_complements":
+        return {"op": rule, "gate": gate, "nonnull": ctx["nonnull"], "e": to_json(before)}, ("RC", to_json(after), ctx["nonnull"])
+    if rule == "uniq_sort" and isinstance(before, (exp.And, exp.Or)):
+        ops_b = list(before.flatten())
+        if before == after:
+            order = ops_b
+        elif len({o for o in ops_b}) == 1:
+            order = [ops_b[0]]
+        elif type(after) is type(before):
+            order = list(after.flatten())
+        else:
+            order = None
+        if order is not None:
+            return {"op": rule, "gate": gate, "order": [to_json(o) for o in order], "e": to_json(before)}, to_json(after)
+    if rule in ("uniq_sort", "absorb_and_eliminate", "remove_complements", "sort_comparison"):
         return {"op": "check", "rule": rule, "a": to_json(before), "b": to_json(after)}, True
     return None
 
@@ -1058,7 +1101,10 @@ def correspond(chk: Check, logs, e2e_norm):
             jb, ja = to_json(be), to_json(af)
         except NotInFragment:
             continue
-        for req, ans in (({"op": "check", "rule": "normalize", "a": jb, "b": ja}, True),
+        _, _, Nmod = sg()
+        for req, ans in (({"op": "check_normalize", "dnf": api == "dnf", "a": jb, "b": ja}, True),
+                         ({"op": "check", "rule": "distributive_law", "a": jb, "b": ja}, True),
+                         ({"op": "norm_distance", "dnf": api == "dnf", "e": jb}, ("EQ", int(Nmod.normalization_distance(be.copy(), dnf=api == "dnf")))),
                          ({"op": "normalized", "dnf": api == "dnf", "e": ja}, None)):
             line = json.dumps(req, sort_keys=True)
             if line in seen:
@@ -1074,6 +1120,30 @@ def correspond(chk: Check, logs, e2e_norm):
     for line, g, e, (rule, ctx, changed) in zip(lines, got, expect, what):
         gj = json.loads(g)
         chk.case(line, nontrivial=changed, sample={"request": json.loads(line), "model": gj} if changed and len(chk.samples) < 10 else None)
+        if isinstance(e, tuple) and e[0] == "CANON":
+            if canon(gj) != canon(e[1]):
+                chk.correspondence_broken(f"rule {rule} (modulo uniq_sort)", {"request": json.loads(line), "model": gj, "impl": e[1]})
+                hints.append((rule, json.loads(line)))
+            continue
+        if isinstance(e, tuple) and e[0] == "PC":
+            if gj[0] == "conflict":
+                chk.count("corr:propagate_constants:conflict-not-modelled")
+            elif gj[1] != e[1]:
+                chk.correspondence_broken("rule propagate_constants", {"request": json.loads(line), "model": gj[1], "impl": e[1]})
+                hints.append((rule, json.loads(line)))
+            continue
+        if isinstance(e, tuple) and e[0] == "RC":
+            if gj[0] != e[1]:
+                chk.correspondence_broken("rule remove_complements", {"request": json.loads(line), "model": gj[0], "impl": e[1]})
+                hints.append((rule, json.loads(line)))
+            elif e[2] and not gj[1]:
+                chk.correspondence_broken("remove_complements: `nonnull` meta on an expression the model cannot show non-NULL",
+                                          {"request": json.loads(line)})
+            continue
+        if isinstance(e, tuple) and e[0] == "EQ":
+            if gj != e[1]:
+                chk.correspondence_broken("normalization_distance", {"request": json.loads(line), "model": gj, "impl": e[1]})
+            continue
         if isinstance(e, tuple):  # normalized mirror vs the real normalized() and the independent normal-form test
             _, api, be, af = e
             _, _, N = sg()
@@ -1081,7 +1151,7 @@ def correspond(chk: Check, logs, e2e_norm):
             if gj != real:
                 chk.correspondence_broken("normalize.normalized", {"dnf": api == "dnf", "e": af.sql(), "model": gj, "impl": real})
             continue
-        if json.loads(line)["op"] == "check":
+        if json.loads(line)["op"] in ("check", "check_normalize"):
             if gj is not True:
                 rejected += 1
                 chk.count("corr:checker-rejected:" + rule)
@@ -1092,6 +1162,38 @@ def correspond(chk: Check, logs, e2e_norm):
             hints.append((rule, json.loads(line)))
     chk.cov["checker_rejected_steps"] = rejected
     return hints
+
+
+def canon(j):
+    """a model term modulo associativity / commutativity / idempotence / parentheses / neutral elements of AND and OR
+    (what uniq_sort may change): used to compare the distributive-law mirror (run with uniq_sort = identity)"""
+    if not isinstance(j, list) or not j or not isinstance(j[0], str):
+        return j
+    t = j[0]
+    if t == "paren":
+        return canon(j[1])
+    if t in ("and", "or"):
+        ops = []
+
+        def flat(x):
+            while x[0] == "paren":
+                x = x[1]
+            if x[0] == t:
+                flat(x[1]); flat(x[2])
+            else:
+                ops.append(canon(x))
+        flat(j)
+        neutral = ["bool", t == "and"]
+        uniq = []
+        for o in ops:
+            if o != neutral and o not in uniq:
+                uniq.append(o)
+        if not uniq:
+            return neutral
+        if len(uniq) == 1:
+            return uniq[0]
+        return [t] + sorted(uniq, key=lambda x: json.dumps(x))
+    return [t] + [canon(x) if isinstance(x, list) else x for x in j[1:]]
 
 
 def evaluator_differential(chk: Check, sqls):
@@ -1203,7 +1305,7 @@ def run(chk: Check) -> None:
     dlist = list(dialects.values())
     rng = chk.rng
     t0 = time.time()
-    budget = chk.pick(50, 480)
+    budget = chk.pick(40, 480)
     if chk.broken:
         budget *= 2
     all_logs, e2e_norm, sqls = [], [], []
@@ -1227,6 +1329,11 @@ def run(chk: Check) -> None:
         for o2 in CMPS:
             for l1, l2 in ((2, 2), (1, 3), (3, 1)):
                 for conn in ("AND", "OR"):
+                    # quick tier: the direct call (cheap, both operand orders) always; the pipeline routes sampled,
+                    # except the tie points (equal constants) which always run; thorough: everything
+                    if chk.quick and l1 != l2 and rng.random() > 0.3:
+                        one(f"i0 {o1} {l1} {conn} i0 {o2} {l2}", "untyped", "connectors", dlist[0])
+                        continue
                     one(f"i0 {o1} {l1} {conn} i0 {o2} {l2}", "untyped", "simplify", dlist[0])
                     # both operand orders reach _simplify_connectors / _simplify_comparison unsorted: directly ...
                     one(f"i0 {o1} {l1} {conn} i0 {o2} {l2}", "untyped", "connectors", dlist[0])
@@ -1240,6 +1347,8 @@ def run(chk: Check) -> None:
             for o1 in RANGE:
                 for o2 in RANGE:
                     for conn in ("AND", "OR"):
+                        if chk.quick and rng.random() > 0.4:
+                            continue
                         one(f"{K} {o1} {T} {conn} {T} {o2} 7", "untyped", "simplify", dlist[0])
                         one(f"{T} {o2} 7 {conn} NOT ({T} + 1 {o1} 3)", "untyped", "simplify", dlist[0])
     for o1 in RANGE:
